@@ -121,6 +121,9 @@ class ExpectationMaximization(ParameterEstimator):
         n_counts = (
             self.data.groupby(list(self.data.columns), observed=True).size().to_dict()
         )
+        if self.data.shape[1] == 1:
+            # groupby on a single column gives scalar keys; rows are looked up as tuples.
+            n_counts = {(key,): value for key, value in n_counts.items()}
 
         cache = Parallel(n_jobs=n_jobs)(
             delayed(self._parallel_compute_weights)(
